@@ -67,8 +67,9 @@ func (e *verifEntry) UnmarshalCBOR(r io.Reader) error {
 var _ Entry = (*verifEntry)(nil)
 
 type verifFile struct {
-	entries []verifEntry
-	closed  bool
+	entries  []verifEntry
+	closed   bool
+	inflated bool // grown beyond the rotation threshold: the next append rotates
 }
 
 type verifModel struct {
@@ -150,11 +151,25 @@ func VerifC11_Histories() {
 	m := &verifModel{}
 	steps := 3 + sym.Tier()
 	for st := 0; st < steps; st++ {
-		switch sym.Choice("op", 6) {
+		switch sym.Choice("op", 7) {
+		case 6: // the active file grows beyond the rotation threshold (1 MiB): the next append rotates by size
+			a := m.active()
+			if a == nil || a.inflated {
+				sym.Assume(false)
+			}
+			if err := os.Truncate(verifNewestFile(dir), rotateAt+1); err != nil {
+				panic(err)
+			}
+			a.inflated = true
+			sym.Cover("inflate")
 		case 0: // append, acknowledged
 			e := verifEntry{Epoch: uint64(sym.Uint8("epoch")), Tag: uint64(st)}
 			sym.Assume(e.Epoch <= 40)
 			sym.Assert(wal.Append(e) == nil, "append succeeds")
+			if a := m.active(); a != nil && a.inflated {
+				a.closed = true // rotated by size
+				sym.Cover("size-rotation")
+			}
 			if m.active() == nil {
 				m.files = append(m.files, &verifFile{})
 			}
@@ -200,6 +215,9 @@ func VerifC11_Histories() {
 			m.files = kept
 			sym.Cover("purge")
 		case 5: // crash while appending: the write is torn at a symbolic offset
+			if a := m.active(); a != nil && a.inflated {
+				a.closed = true // the torn append first rotates by size
+			}
 			active := m.active() != nil
 			var before int64
 			var name string
@@ -236,5 +254,86 @@ func VerifC11_Histories() {
 			sym.Cover("torn-crash")
 		}
 		verifCheckAll(wal, m, "after step")
+	}
+}
+
+// VerifC11_SizeRotationPurge: the size-driven rotation path in depth: entries
+// with symbolic epochs are appended around a rotation forced by the active
+// file exceeding 1 MiB, the log is closed/rotated or not, and purged below a
+// symbolic epoch; the result is compared with the model.
+func VerifC11_SizeRotationPurge() {
+	dir, err := os.MkdirTemp("", "verifwal")
+	if err != nil {
+		panic(err)
+	}
+	defer os.RemoveAll(dir)
+	wal, err := Open[verifEntry](dir)
+	if err != nil {
+		panic(err)
+	}
+	m := &verifModel{}
+	ep := func(tag string) uint64 {
+		e := uint64(sym.Uint8(tag))
+		sym.Assume(e <= 40)
+		return e
+	}
+	app := func(e verifEntry) {
+		sym.Assert(wal.Append(e) == nil, "append succeeds")
+		if a := m.active(); a != nil && a.inflated {
+			a.closed = true
+		}
+		if m.active() == nil {
+			m.files = append(m.files, &verifFile{})
+		}
+		a := m.active()
+		a.entries = append(a.entries, e)
+	}
+	app(verifEntry{Epoch: ep("e1"), Tag: 1})
+	if err := os.Truncate(verifNewestFile(dir), rotateAt+1); err != nil {
+		panic(err)
+	}
+	m.active().inflated = true
+	app(verifEntry{Epoch: ep("e2"), Tag: 2}) // rotates by size
+	sym.Cover("size-rotation")
+	if sym.Bool("third-append") {
+		app(verifEntry{Epoch: ep("e3"), Tag: 3})
+	}
+	verifCheckAll(wal, m, "after size rotation")
+	switch sym.Choice("then", 3) {
+	case 0:
+		sym.Assert(wal.Close() == nil, "close succeeds")
+		m.closeActive()
+	case 1:
+		sym.Assert(wal.Rotate() == nil, "rotate succeeds")
+		m.closeActive()
+	}
+	keep := uint64(sym.Uint8("keep-epoch"))
+	sym.Assume(keep <= 41)
+	sym.Assert(wal.Purge(keep) == nil, "purge succeeds")
+	var kept []*verifFile
+	for _, f := range m.files {
+		if f.closed {
+			var max uint64
+			for _, e := range f.entries {
+				if e.Epoch > max {
+					max = e.Epoch
+				}
+			}
+			if max < keep {
+				continue
+			}
+		}
+		kept = append(kept, f)
+	}
+	m.files = kept
+	sym.Cover("purged")
+	verifCheckAll(wal, m, "after purge")
+	// and the same after a restart
+	_ = wal.Close()
+	m.closeActive()
+	wal, err = Open[verifEntry](dir)
+	sym.Assert(err == nil, "reopen succeeds")
+	if err == nil {
+		verifCheckAll(wal, m, "after purge and restart")
 	}
 }
